@@ -25,7 +25,7 @@ func ruleC17(prog *Program, rep *Report) {
 	ruleFindFirst(prog, rep, "jp")
 	ruleQuotedIsString(prog, rep, jsonFrontEnds[2], senFrontEnds[1])
 	ruleBufView(prog, rep, 20, "oj", "sen")
-	ruleAddrRetain(prog, rep, 1, "jp") // the handler keeps one entry per target
+	ruleAddrRetain(prog, rep, 1, "jp")                         // the handler keeps one entry per target
 	ruleBufAlias(prog, rep, jsonFrontEnds[2], senFrontEnds[1]) // a string delivered to the callback must survive the next read
 	// T-leaf
 	rep.Rules = append(rep.Rules, "T-leaf: each leaf method of jp.MatchHandler (Null, Bool, Int, Float, Number, String) consists of exactly one call of the same helper method whose argument is the method's own parameter (nil for Null; a conversion of the parameter for Number)")
